@@ -309,6 +309,7 @@ func main() {
 	timed(run, "tick-random", func() { sim.Parallel(nTickChunks, 16, func(i int) { caseTickChunk(run, i) }) })
 	timed(run, "tick-boundaries", func() { tickBoundariesAll(run) })
 	timed(run, "handler", func() { sim.Parallel(nBatch, 16, func(i int) { caseHandlerBatch(run, i) }) })
+	timed(run, "router", func() { sim.Parallel(run.N(64, 2000), 16, func(i int) { routerStability(run, i) }) })
 	closeWorlds()
 	timed(run, "chain", func() { sim.Parallel(nChain, 16, func(i int) { caseChain(run, i) }) })
 
@@ -321,7 +322,7 @@ func main() {
 		"chain_signing_checked:tss/Text", "chain_signing_checked:oracle", "chain_signing_checked:feeds", "chain_signing_checked:tunnel-packet",
 		"chain_internal_tx_rejected:transition", "chain_internal_tx_rejected:tunnel", "chain_msgserver_internal_rejected:transition",
 		"chain_msgserver_internal_rejected:tunnel", "chain_msgserver_control_accepted",
-		"tick_random_prices", "tick_boundary_prices", "tick_ticks_swept", "tick_table_constants_checked",
+		"tick_random_prices", "tick_boundary_prices", "tick_ticks_swept", "tick_table_constants_checked", "router:payload-stable-after-later-requests",
 	} {
 		run.Require(c, 1)
 	}
